@@ -829,6 +829,20 @@ func plDrawQueued(c simkit.Chooser) (plMsg, wire.Message) {
 	case 1:
 		m := wire.NewMsgInv()
 		m.AddInvVect(wire.NewInvVect(wire.InvTypeTx, &ch))
+		if c.Bool(200, "pl.big-inv") {
+			// a packet of tens of kilobytes
+			n := simkit.Range(c, 253, 1200, "pl.big-inv-n")
+			payload := []byte{0xfd, byte(n), byte(n >> 8)}
+			payload = append(payload, plInvPayload(1, h)[1:]...)
+			for i := 1; i < n; i++ {
+				hi := h
+				binary.LittleEndian.PutUint32(hi[28:], uint32(i))
+				chi := chainhash.Hash(hi)
+				m.AddInvVect(wire.NewInvVect(wire.InvTypeTx, &chi))
+				payload = append(payload, plInvPayload(1, hi)[1:]...)
+			}
+			return plMsg{cmd: "inv", payload: payload}, m
+		}
 		return plMsg{cmd: "inv", payload: plInvPayload(1, h)}, m
 	case 2:
 		m := wire.NewMsgGetData()
@@ -860,6 +874,18 @@ func plDrawRemote(c simkit.Chooser, pv uint32, pongsDue *[]uint64) plMsg {
 		*pongsDue = append(*pongsDue, n)
 		return plMsg{cmd: "ping", payload: le64b(n), cbName: "ping", cbTok: fmt.Sprint(n)}
 	case 1:
+		if c.Bool(200, "pl.big-rinv") {
+			n := simkit.Range(c, 253, 1200, "pl.big-rinv-n")
+			payload := []byte{0xfd, byte(n), byte(n >> 8)}
+			for i := 0; i < n; i++ {
+				hi := h
+				if i > 0 {
+					binary.LittleEndian.PutUint32(hi[28:], uint32(i))
+				}
+				payload = append(payload, plInvPayload(1, hi)[1:]...)
+			}
+			return plMsg{cmd: "inv", payload: payload, cbName: "inv", cbTok: tok(1)}
+		}
 		return plMsg{cmd: "inv", payload: plInvPayload(1, h), cbName: "inv", cbTok: tok(1)}
 	case 2:
 		return plMsg{cmd: "getdata", payload: plInvPayload(2, h), cbName: "getdata", cbTok: tok(2)}
